@@ -87,13 +87,27 @@ func (g *findGen) obj(tree []*keyTree, p int, idn *int) map[string]interface{} {
 	}
 	for _, t := range tree {
 		if p > 0 && g.rng.Intn(p) == 0 {
-			switch g.rng.Intn(3) {
+			switch g.rng.Intn(5) {
 			case 0:
 				o[t.key] = nil
 			case 1:
 				continue // key missing
 			case 2:
 				o[t.key] = "scalar"
+			case 3:
+				// the other shape: a list (possibly empty) where the schema has an object, an object where it has a list
+				if t.kind == "a" {
+					n := g.rng.Intn(3)
+					l := make([]interface{}, n)
+					for i := range l {
+						l[i] = g.obj(t.sub, p, idn)
+					}
+					o[t.key] = l
+				} else {
+					o[t.key] = g.obj(t.sub, p, idn)
+				}
+			case 4:
+				o[t.key] = []interface{}{}
 			}
 			continue
 		}
@@ -184,7 +198,17 @@ func findCases(rng *rand.Rand, n int, obs *hx.Obs) []string {
 		ss := doc.Operations[0].SelectionSet
 		var start [][]string
 		start = append(start, append([]string{}, branch...))
-		got, err := executor.FindInsertionPoints(target, ss, result, start)
+		var got [][]string
+		var err error
+		func() {
+			defer func() {
+				if r := recover(); r != nil {
+					err = fmt.Errorf("panic: %v", r)
+					obs.Fail(len(out), fmt.Sprintf("FindInsertionPoints panicked (%v) on target %v, selection %s", r, target, query), map[string]interface{}{"target": target, "query": query, "result": result, "branch": branch})
+				}
+			}()
+			got, err = executor.FindInsertionPoints(target, ss, result, start)
+		}()
 		obsCoq := "None"
 		if err == nil {
 			items := make([]string, len(got))
